@@ -821,8 +821,11 @@ type namedString string
 type wrongStruct struct{ Q int }
 
 // DeepNest builds n levels of nested lists or maps.
-func DeepNest(n int, asMap bool) any {
-	var v any = int64(1)
+func DeepNest(n int, asMap bool) any { return DeepNestLeaf(n, asMap, int64(1)) }
+
+// DeepNestLeaf is DeepNest with the innermost value given (e.g. one that no schema accepts).
+func DeepNestLeaf(n int, asMap bool, leaf any) any {
+	v := leaf
 	for i := 0; i < n; i++ {
 		if asMap {
 			v = map[string]any{"a": v}
